@@ -27,16 +27,17 @@ const (
 )
 
 type Task struct {
-	ID     int
-	Kind   string
-	Name   string
-	Parent int
-	state  TaskState
-	site   string
-	resume chan struct{}
-	gid    int64
-	Steps  int
-	prio   int
+	critical int // depth of critical sections announced by the code under test (owner-only)
+	ID       int
+	Kind     string
+	Name     string
+	Parent   int
+	state    TaskState
+	site     string
+	resume   chan struct{}
+	gid      int64
+	Steps    int
+	prio     int
 	// parkCount counts how often the task parked; seenPark is the last park the
 	// scheduler has examined for site-aimed faults
 	parkCount int
@@ -334,6 +335,26 @@ func (s *Sim) yield(site string) {
 		return
 	}
 	t := s.lookup()
+	if t != nil {
+		// critical sections: the code under test says it holds a lock another
+		// task may want (a task parked there would leave that task waiting on a
+		// mutex, which is not a block the simulator can see)
+		switch site {
+		case "critical.enter":
+			t.critical++
+			return
+		case "critical.exit":
+			if t.critical > 0 {
+				t.critical--
+			}
+			return
+		}
+		if t.critical > 0 {
+			return
+		}
+	} else if site == "critical.enter" || site == "critical.exit" {
+		return
+	}
 	if t == nil {
 		// Not a task of this run. If it is a task of an EARLIER run that has
 		// been torn down (it was blocked in a primitive when that run ended
